@@ -37,7 +37,7 @@ Fixpoint alookup {A} (k : Z) (m : list (Z * A)) : option A :=
 Fixpoint aremove {A} (k : Z) (m : list (Z * A)) : list (Z * A) :=
   match m with
   | [] => []
-  | (k', v) :: r => if k =? k' then aremove k r else (k', v) :: aremove k r
+  | (k', v) :: r => if k =? k' then r else (k', v) :: aremove k r
   end.
 Fixpoint aset {A} (k : Z) (v : A) (m : list (Z * A)) : list (Z * A) :=
   match m with
@@ -331,14 +331,16 @@ Definition set_panic_if (b : bool) (s : st) : st := if b then set_panic true s e
 (** [insert(remote, id)] *)
 Definition insert_stream (remote : bool) (id : Z) (s : st) : st :=
   let bi := sid_dir id =? 0 in
+  (* the maps hold each key once: a second insertion is the [assert!] failure of the code *)
   let s1 := if bi || negb remote
-            then set_panic_if (amem id (sendm s)) (set_sendm (aset id TNone (sendm s)) s)
+            then (if amem id (sendm s) then set_panic true s
+                  else set_sendm (aset id TNone (sendm s)) s)
             else s in
   if bi || remote then
-    let s2 := set_panic_if (amem id (recvm s1)) s1 in
-    if 0 <? free_recv s2
-    then set_free_recv (free_recv s2 - 1) (set_recvm (aset id SFree (recvm s2)) s2)
-    else set_recvm (aset id SNone (recvm s2)) s2
+    if amem id (recvm s1) then set_panic true s1
+    else if 0 <? free_recv s1
+    then set_free_recv (free_recv s1 - 1) (set_recvm (aset id SFree (recvm s1)) s1)
+    else set_recvm (aset id SNone (recvm s1)) s1
   else s1.
 
 Fixpoint insert_remote_range (n : nat) (dir from : Z) (s : st) : st :=
@@ -496,7 +498,9 @@ Definition read_op (fx : bool) (id : Z) (ordered : bool) (budget : Z) (s : st) :
         match asm_ensure (r_asm r) ordered with
         | None => (if fx then s1 else set_recvm (aremove id (recvm s1)) s1, [2])
         | Some a1 =>
-            let s2 := set_recvm (aremove id (recvm s1)) s1 in
+            (* [Chunks] takes the [Recv] out of the map and [finalize] puts it back unless the
+               stream ended; nothing looks at the map in between, so the entry is kept here and
+               only removed when the stream is freed *)
             let '(a2, total, none) := asm_read a1 budget in
             let r2 := mkRecv (r_state r) a2 (r_sent_msd r) (r_end r) false in
             (* outcome of the last [next] call *)
@@ -511,7 +515,9 @@ Definition read_op (fx : bool) (id : Z) (ordered : bool) (budget : Z) (s : st) :
                 end
               else (0, 0) in
             let freed := (term =? 2) || (term =? 3) in
-            let s3 := if freed then stream_recv_freed id (eff_end r2) s2 else s2 in
+            let s3 := if freed
+                      then stream_recv_freed id (eff_end r2) (set_recvm (aremove id (recvm s1)) s1)
+                      else s1 in
             let s3 := set_panic_if ((term =? 3) && negb (total =? 0)) s3 in
             (* finalize *)
             let '(s4, q) := queue_max_stream_id s3 in
